@@ -189,8 +189,10 @@ class Namer:
         return 'p%d' % (self.p - 1)
 
 
-def random_ast(rng, depth, max_body=3, ret_codes=(None, 3, 0)):
+def random_ast(rng, depth, max_body=3, ret_codes=(None, 3, 0), repeat=0.15):
+    """repeat: probability that a step instruction names a step function used before (the same function twice in an outline)."""
     namer = Namer()
+    issued = []
 
     def body(d):
         return [node(d) for _ in range(rng.randint(1, max_body))]
@@ -198,7 +200,10 @@ def random_ast(rng, depth, max_body=3, ret_codes=(None, 3, 0)):
     def node(d):
         r = rng.random()
         if d <= 0 or r < 0.45 or namer.s >= NSTEP - 4 or namer.p >= NPRED - 3:
-            return namer.step()
+            if issued and rng.random() < repeat:
+                return list(rng.choice(issued))
+            issued.append(namer.step())
+            return list(issued[-1])
         if r < 0.7:
             brs = [[namer.pred(), body(d - 1)] for _ in range(rng.randint(1, 3))]
             els = body(d - 1) if rng.random() < 0.5 else None
